@@ -163,7 +163,7 @@ def run_case(case):
 def cases_for(tier, seed):
     parts = [p for n in range(1, 9) for k in range(1, 5) for p in compositions(n, k)]
     cases = []
-    nsched = 2 if tier == "quick" else 24
+    nsched = 2 if tier == "quick" else 64
     for pi, p in enumerate(parts):
         for st in STYPES:
             base = {"partition": list(p), "stype": st}
@@ -180,7 +180,7 @@ def cases_for(tier, seed):
                 cases.append(dict(base, sched=s, sem=m))
     if tier == "thorough":
         rng = random.Random(core.h64(seed, "c23-large"))
-        for j in range(6000):
+        for j in range(40000):
             n = rng.randrange(9, 17)
             k = rng.randrange(2, 7)
             cuts = sorted(rng.randrange(0, n + 1) for _ in range(k - 1))
@@ -324,7 +324,7 @@ def main(argv):
         "samples": samples,
         "partitions_enumerated": nparts,
         "partition_space": "all ordered partitions of n=1..8 over k=1..4 tasks incl. empty tasks (710)"
-                           + ("; plus 6000 sampled with n<=16, k<=6" if a.tier == "thorough" else ""),
+                           + ("; plus 40000 sampled with n<=16, k<=6" if a.tier == "thorough" else ""),
         "exhaustive": False,
         "runs_by_semantics": bysem,
         "fault_kinds_fired": {k: stats.get(k, 0) for k in
